@@ -378,6 +378,41 @@ func compareWithRef(g *graph.WeightedAuthorizationModelGraph, ref *rgraph) []mis
 	}
 	_ = structOK
 
+	// the other read accessors must agree with the maps
+	for l, n := range nodes {
+		if got, ok := g.GetNodeByID(l); !ok || got != n {
+			add("C10", "structure.accessor", l, "GetNodeByID(%s) does not return the node stored under that label", l)
+		}
+		es, ok := g.GetEdgesFromNode(n)
+		if ok != (edges[l] != nil) || len(es) != len(edges[l]) {
+			add("C10", "structure.accessor", l, "GetEdgesFromNode(%s) returns %d edges, GetEdges() has %d", l, len(es), len(edges[l]))
+		} else {
+			for i := range es {
+				if es[i] != edges[l][i] {
+					add("C10", "structure.accessor", l, "GetEdgesFromNode(%s)[%d] differs from GetEdges()", l, i)
+				}
+			}
+		}
+		for k, v := range n.GetWeights() {
+			if w, ok := n.GetWeight(k); !ok || w != v {
+				add("C04", "weights.accessor", l, "node %s: GetWeight(%s)=%d,%v but GetWeights() has %d", l, k, w, ok, v)
+			}
+		}
+		if _, ok := n.GetWeight("no-such-type"); ok {
+			add("C04", "weights.accessor", l, "node %s: GetWeight of an absent type reports present", l)
+		}
+		for i, e := range edges[l] {
+			for k, v := range e.GetWeights() {
+				if w, ok := e.GetWeight(k); !ok || w != v {
+					add("C04", "weights.accessor", l, "edge #%d of %s: GetWeight(%s)=%d,%v but GetWeights() has %d", i, l, k, w, ok, v)
+				}
+			}
+		}
+	}
+	if _, ok := g.GetNodeByID("no-such-node"); ok {
+		add("C10", "structure.accessor", "", "GetNodeByID of an absent label reports present")
+	}
+
 	// weights and wildcards on matched nodes
 	for _, rn := range ref.order {
 		ul, ok := match[rn.id]
